@@ -1,7 +1,7 @@
 """C06 - non-mutation of arguments (MUT), patch pairing (PATCH), wrapper tables, broadcast protocol, handled functions."""
 import ast, re
 from ..core import RuleResult, Finding, AnalysisError, dotted, src, norm_construct, ClassInfo
-from ..expr import inline_straight, returns_of, dump, subst
+from ..expr import inline_straight, returns_of, dump, subst, rv
 from .. import paths, effects
 
 LT = 'pypose.lietensor.lietensor'
@@ -333,10 +333,11 @@ def rule_wrap(repo, tier):
         for kind in ('randn', 'identity'):
             f = repo.func(UT, '%s_%s' % (kind, name))
             rets = returns_of(f.node)
-            ok = len(rets) == 1 and isinstance(rets[0].value, ast.Call) and dotted(rets[0].value.func) == '%s_type.%s' % (name, kind)
+            v0 = rv(f.node, rets[0]) if len(rets) == 1 else None
+            ok = isinstance(v0, ast.Call) and dotted(v0.func) == '%s_type.%s' % (name, kind)
             if ok:
                 # all positional and keyword arguments forwarded
-                c = rets[0].value
+                c = v0
                 ok = any(isinstance(a, ast.Starred) for a in c.args) and any(k.arg is None for k in c.keywords)
             res.inst({'function': f.fq, 'target': '%s_type.%s' % (name, kind), 'ok': ok}, f.fq)
             if not ok:
@@ -345,8 +346,9 @@ def rule_wrap(repo, tier):
         f = repo.func(UT, w)
         rets = returns_of(f.node)
         pp = f.pos_params
-        ok = len(rets) == 1 and isinstance(rets[0].value, ast.Call) and isinstance(rets[0].value.func, ast.Attribute) and \
-            rets[0].value.func.attr == w and dotted(rets[0].value.func.value) == pp[0] and [dotted(a) for a in rets[0].value.args] == pp[1:]
+        v0 = rv(f.node, rets[0]) if len(rets) == 1 else None
+        ok = isinstance(v0, ast.Call) and isinstance(v0.func, ast.Attribute) and \
+            v0.func.attr == w and dotted(v0.func.value) == pp[0] and [dotted(a) for a in v0.args] == pp[1:]
         res.inst({'function': f.fq, 'forwards_to': '.%s' % w, 'ok': ok}, f.fq)
         if not ok:
             res.add(Finding('C06.WRAP', f, 'pp.%s must return <first argument>.%s(<remaining arguments>)' % (w, w), construct='wrapper'))
